@@ -41,7 +41,7 @@ class C13(Harness):
 
     def bounds(self, tier):
         q = tier == "quick"
-        return {"sp_max": 3 if q else 4, "stretch_len": "1..3", "offsets": "free integers (any sign)", "hampel_n": "4..%d" % (5 if q else 6), "imputer_n": "3..4"}
+        return {"sp_max": 3 if q else 4, "stretch_len": "1..3", "offsets": "free integers (any sign)", "hampel_n": "4..6", "imputer_n": "3..4"}
 
     def cells(self, tier):
         out = []
@@ -54,7 +54,8 @@ class C13(Harness):
         out.append({"name": "log", "kind": "log", "cost": 1})
         out.append({"name": "adaptor", "kind": "adaptor", "cost": 1})
         out.append({"name": "passthrough", "kind": "passthrough", "cost": 1})
-        out.append({"name": "shift-hampel", "kind": "hampel", "cost": 4})
+        for n in (4, 5, 6):  # the centre-of-window branch of the filter needs >= 6 points with window 3
+            out.append({"name": "shift-hampel-n%d" % n, "kind": "hampel", "n": n, "cost": n * 2})
         for m in ("ffill", "bfill", "constant", "mean", "median", "linear", "drift"):
             out.append({"name": "shift-imputer-%s" % m, "kind": "imputer", "method": m, "cost": 2})
         return out
@@ -160,8 +161,14 @@ class C13(Harness):
             if k == "passthrough":
                 inp["passthrough"] = bool(ctx.fresh_bool("passthrough"))
         elif k == "hampel":
-            n = choice("n", 4, 5 if q else 6)
+            n = cell["n"]
             inp["z"] = fresh_reals(ctx, "z", n)
+            if n == 6 and q:
+                # quick tier: the first two observations are concrete, which prunes the orderings of the first
+                # window while the centre-of-window branch (reached from 6 points on) stays fully symbolic
+                from fractions import Fraction
+
+                inp["z"][0], inp["z"][1] = Fraction(1, 2), Fraction(3, 2)
             inp["n_sigma"] = ctx.fresh_real("n_sigma")
             ctx.assume(inp["n_sigma"] > 0)
         elif k == "imputer":
@@ -253,15 +260,18 @@ class C13(Harness):
             from sklearn.base import BaseEstimator, TransformerMixin
 
             class Sk(TransformerMixin, BaseEstimator):
+                """stateful: the transform depends on a statistic learnt in fit (the first training value)"""
+
                 def fit(self, X, y=None):
                     log.append({"op": "sk.fit", "shape": list(X.shape)})
+                    self.ref_ = L(X)[0][0]
                     return self
 
                 def transform(self, X):
-                    return np.array([[W.uf("sk", [v], "r>r") for v in row] for row in L(X)])
+                    return np.array([[W.uf("sk", [v, self.ref_], "rr>r") for v in row] for row in L(X)])
 
                 def inverse_transform(self, X):
-                    return np.array([[W.uf("skinv", [v], "r>r") for v in row] for row in L(X)])
+                    return np.array([[W.uf("skinv", [v, self.ref_], "rr>r") for v in row] for row in L(X)])
 
             AD = W.load("sktime.transformations.series.adapt").TabularToSeriesAdaptor
             t, t2 = AD(Sk()), AD(Sk())
@@ -356,9 +366,10 @@ class C13(Harness):
                     P.eq("same-time-index", zt[i], W.uf("boxcox", [z[i], lam], "rr>r"))
         elif k == "adaptor":
             P.check("adaptor-columnwise", out["fitshape"] == [n_tr, 1])
+            ref = inp["ytr"][0]  # the wrapped transformer was fitted on the training series only
             for i in range(len(z)):
-                P.eq("adaptor-columnwise", zt[i], W.uf("sk", [z[i]], "r>r"))
-                P.eq("adaptor-columnwise", bk[i], W.uf("skinv", [W.uf("sk", [z[i]], "r>r")], "r>r"))
+                P.eq("adaptor-columnwise", zt[i], W.uf("sk", [z[i], ref], "rr>r"))
+                P.eq("adaptor-columnwise", bk[i], W.uf("skinv", [W.uf("sk", [z[i], ref], "rr>r"), ref], "rr>r"))
         elif k == "passthrough":
             for i in range(len(z)):
                 if inp["passthrough"]:
